@@ -84,7 +84,8 @@ class DictWriter:
                 else:
                     tag = getattr(odml_document, attr)
 
-                    if tag:
+                    # Keep attributes that are set but falsy, e.g. a version of 0.
+                    if tag is not None and tag != "":
                         # Always use the arguments key attribute name when saving
                         parsed_doc[i] = tag
 
@@ -122,7 +123,7 @@ class DictWriter:
                         # nasty python code annotations when writing to yaml.
                         if tag and isinstance(tag, tuple):
                             section_dict[i] = list(tag)
-                        elif tag:
+                        elif tag is not None and tag != "":
                             # Always use the arguments key attribute name when saving
                             section_dict[i] = tag
 
@@ -154,7 +155,9 @@ class DictWriter:
                     # nasty python code annotations when writing to yaml.
                     if isinstance(tag, tuple):
                         prop_dict[attr] = list(tag)
-                    elif (tag == []) or tag:  # Even if 'values' is empty, allow '[]'
+                    elif tag is not None and tag != "":
+                        # Even if 'values' is empty, allow '[]'; keep attributes
+                        # that are set but falsy, e.g. an uncertainty of 0.
                         # Custom odML tuples require special handling.
                         if attr == "values" and prop.dtype and \
                                 prop.dtype.endswith("-tuple") and prop.values:
